@@ -6,6 +6,7 @@
 
 mod ast;
 mod checks;
+mod corpus;
 mod ctxfn;
 mod ev;
 mod prog;
